@@ -15,37 +15,11 @@ def anyAllows (l : List RC) (p : Version) : Bool := l.any (fun c => c.allows p)
 
 def boundsOf (l : List RC) : List Version := l.flatMap RC.bounds
 
-/-- the hypotheses on a list of members: every member well-formed and tidy, and no "version / local
-build of that version" pair among the `Version` members -/
-def Good (l : List RC) : Prop :=
-  (∀ c ∈ l, c.WF ∧ c.Tidy) ∧
-  (∀ a b, RC.ver a ∈ l → RC.ver b ∈ l → a.allows b = true → b.allows a = true)
+/-- the hypotheses on a list of members: every member well-formed and tidy -/
+def Good (l : List RC) : Prop := ∀ c ∈ l, c.WF ∧ c.Tidy
 
 theorem Good.mono {l l' : List RC} (h : Good l) (hs : ∀ c ∈ l', c ∈ l) : Good l' :=
-  ⟨fun c hc => h.1 c (hs c hc), fun a b ha hb => h.2 a b (hs _ ha) (hs _ hb)⟩
-
-theorem rcUnionSingle_ver (x y : RC) (b : Version) (h : rcUnionSingle x y = .ok (some (.ver b))) :
-    y = .ver b := by
-  cases x with
-  | ver a =>
-    simp only [rcUnionSingle] at h
-    by_cases h1 : y.allows a = true
-    · simpa [h1] using h
-    · simp only [h1, Bool.false_eq_true, if_false] at h
-      repeat' (split at h)
-      all_goals simp at h
-  | rng r =>
-    cases y with
-    | ver v =>
-      simp only [rcUnionSingle] at h
-      split at h
-      · simp at h
-      · split at h
-        · simp at h
-        · split at h <;> simp at h
-    | rng s =>
-      simp only [rcUnionSingle, bind, Except.bind, pure, Except.pure, RC.allowsAny] at h
-      split at h <;> simp at h
+  fun c hc => h c (hs c hc)
 
 theorem mem_boundsOf {l : List RC} {c : RC} {e : Version} (hc : c ∈ l) (he : e ∈ c.bounds) : e ∈ boundsOf l :=
   List.mem_flatMap.2 ⟨c, hc, he⟩
@@ -97,27 +71,15 @@ theorem mergeLoop_sem : ∀ (l acc : List RC) (res : List RC), mergeLoop l acc =
           simp only [hu] at h
           have hl : last ∈ (c :: rest) ++ last :: more := by simp
           have hc : c ∈ (c :: rest) ++ last :: more := by simp
-          obtain ⟨huwf, hut, hub, hex⟩ := RC.rcUnionSingle_exact last c (hg.1 last hl).1 (hg.1 c hc).1
-            (hg.1 last hl).2 (hg.1 c hc).2
-            (fun a b ha hb' => hg.2 a b (ha ▸ hl) (hb' ▸ hc)) u hu
+          obtain ⟨huwf, hut, hub, hex⟩ := RC.rcUnionSingle_exact last c (hg last hl).1 (hg c hc).1
+            (hg last hl).2 (hg c hc).2 u hu
           have hg' : Good (rest ++ u :: more) := by
-            refine ⟨?_, ?_⟩
-            · intro x hx
-              simp only [List.mem_append, List.mem_cons] at hx
-              rcases hx with hx | rfl | hx
-              · exact hg.1 x (by simp [hx])
-              · exact ⟨huwf, hut⟩
-              · exact hg.1 x (by simp [hx])
-            · have key : ∀ a, RC.ver a ∈ rest ++ u :: more → RC.ver a ∈ (c :: rest) ++ last :: more := by
-                intro a ha
-                simp only [List.mem_append, List.mem_cons] at ha ⊢
-                rcases ha with ha | ha | ha
-                · exact Or.inl (Or.inr ha)
-                · have := rcUnionSingle_ver last c a (ha ▸ hu)
-                  exact Or.inl (Or.inl this.symm)
-                · exact Or.inr (Or.inr ha)
-              intro a b ha hb'
-              exact hg.2 a b (key a ha) (key b hb')
+            intro x hx
+            simp only [List.mem_append, List.mem_cons] at hx
+            rcases hx with hx | rfl | hx
+            · exact hg x (by simp [hx])
+            · exact ⟨huwf, hut⟩
+            · exact hg x (by simp [hx])
           have ih := mergeLoop_sem rest (u :: more) res h hg'
           have hbsub : ∀ e ∈ boundsOf (rest ++ u :: more), e ∈ boundsOf ((c :: rest) ++ last :: more) := by
             intro e he
@@ -193,18 +155,17 @@ theorem unionOfFlat_sem (l : List RC) (res : VC) (h : unionOfFlat l = .ok res) (
     subst h
     have : l = [] := List.isEmpty_iff.mp h1
     subst this
-    exact ⟨⟨by simp [VC.flatten], by simp [VC.flatten]⟩, by simp [VC.bounds], by simp [VC.allowsPlain, VC.flatten, anyAllows]⟩
+    exact ⟨by simp [Good, VC.flatten], by simp [VC.bounds], by simp [VC.allowsPlain, VC.flatten, anyAllows]⟩
   · simp only [h1, Bool.false_eq_true, if_false] at h
     by_cases h2 : l.any RC.isAny = true
     · simp only [h2, if_true, Except.ok.injEq] at h
       subst h
-      refine ⟨⟨?_, ?_⟩, ?_, ?_⟩
+      refine ⟨?_, ?_, ?_⟩
       · intro c hc
         simp only [VC.any, VC.flatten, List.mem_singleton] at hc
         subst hc
         exact ⟨⟨by intro e he; simp [VRange.bounds, VRange.any] at he, by intro m M hm; simp [VRange.any] at hm⟩,
           ⟨fun _ => rfl, fun _ => rfl⟩⟩
-      · intro a b ha; simp [VC.any, VC.flatten] at ha
       · intro e he; simp [VC.any, VC.bounds, RC.bounds, RC.view, VRange.bounds, VRange.any, RC.min, RC.max] at he
       · intro p _ _
         obtain ⟨c, hc, hany⟩ := List.any_eq_true.1 h2
@@ -299,8 +260,14 @@ theorem rcUnionSingle_some (x y : RC) (hx : x.WF) (hy : y.WF)
               exact ⟨m, rfl, Version.allows_of_vk_eq hx hmwf ((eqv_iff _ _).1 he).symm⟩
             · simp [he] at hm
       obtain ⟨m, hm1, hm2⟩ := key
-      simp only [hm1, hm2, if_true]
-      exact ⟨_, rfl, Or.inr (by simp [RC.min, hm1])⟩
+      cases y with
+      | ver b =>
+        have : b = m := by simpa [RC.min] using hm1
+        subst this
+        exact ⟨RC.ver a, by simp [hm2], Or.inl rfl⟩
+      | rng r =>
+        have hm1' : r.min = some m := hm1
+        exact ⟨RC.rng ⟨r.min, r.max, true, r.imax⟩, by simp [RC.min, RC.max, RC.imax, hm1', hm2], Or.inr rfl⟩
   | rng r =>
     cases y with
     | ver v =>
@@ -364,28 +331,17 @@ theorem mergeLoop_total : ∀ (l acc : List RC), Good (l ++ acc) → NoLocalLowe
         (fun x hx => hn x (by simp at hx ⊢; grind))
     · simp only [hb, Bool.false_eq_true, if_false]
       simp only [Bool.not_eq_true] at hb
-      obtain ⟨u, hu, humin⟩ := rcUnionSingle_some last c (hg.1 last hl).1 (hg.1 c hc).1 (hn last hl) any hany hb
+      obtain ⟨u, hu, humin⟩ := rcUnionSingle_some last c (hg last hl).1 (hg c hc).1 (hn last hl) any hany hb
       simp only [hu]
-      obtain ⟨huwf, hut, hub, hex⟩ := RC.rcUnionSingle_exact last c (hg.1 last hl).1 (hg.1 c hc).1
-        (hg.1 last hl).2 (hg.1 c hc).2 (fun a b ha hb' => hg.2 a b (ha ▸ hl) (hb' ▸ hc)) u hu
+      obtain ⟨huwf, hut, hub, hex⟩ := RC.rcUnionSingle_exact last c (hg last hl).1 (hg c hc).1
+        (hg last hl).2 (hg c hc).2 u hu
       have hg' : Good (rest ++ u :: more) := by
-        refine ⟨?_, ?_⟩
-        · intro x hx
-          simp only [List.mem_append, List.mem_cons] at hx
-          rcases hx with hx | rfl | hx
-          · exact hg.1 x (by simp [hx])
-          · exact ⟨huwf, hut⟩
-          · exact hg.1 x (by simp [hx])
-        · have key : ∀ a, RC.ver a ∈ rest ++ u :: more → RC.ver a ∈ (c :: rest) ++ last :: more := by
-            intro a ha
-            simp only [List.mem_append, List.mem_cons] at ha ⊢
-            rcases ha with ha | ha | ha
-            · exact Or.inl (Or.inr ha)
-            · have := rcUnionSingle_ver last c a (ha ▸ hu)
-              exact Or.inl (Or.inl this.symm)
-            · exact Or.inr (Or.inr ha)
-          intro a b ha hb'
-          exact hg.2 a b (key a ha) (key b hb')
+        intro x hx
+        simp only [List.mem_append, List.mem_cons] at hx
+        rcases hx with hx | rfl | hx
+        · exact hg x (by simp [hx])
+        · exact ⟨huwf, hut⟩
+        · exact hg x (by simp [hx])
       have hn' : NoLocalLower (rest ++ u :: more) := by
         intro x hx m hm
         simp only [List.mem_append, List.mem_cons] at hx
